@@ -77,12 +77,17 @@ def run(ctx):
         for i in range(dim + 3):
             for rep in range(6 if i < dim else 1):
                 xs = list(s["xs_long"]); xs[i] = [1e-300, 1 - 2.0 ** -53][rep] if (rep < 2 and i < dim) else rng.random()
-                preqs.append(dict(s["req"], x=[f2b(v) for v in xs])); pinfo.append((si, i, rep))
+                preqs.append(dict(s["req"], x=[f2b(v) for v in xs], debug=True)); pinfo.append((si, i, rep))
     pres = run_harness(preqs)
+    base_dbg = run_harness([dict(s["req"], debug=True) for s in ss[: (8 if ctx.quick else 40)]])
+
+    def observables(a):
+        # everything a caller can observe: the result, the metadata and (feature `log`) the logged Feynman parameters
+        return [a.get(k) for k in ("status", "k", "u", "v", "jac")] + [a.get("meta", {}) and {k: a["meta"].get(k) for k in ("q", "lambda")}] \
+            + [a.get("log", {}).get("momtrop_feynman_parameter_no_rescaling")]
     changed = {}
     for (si, i, rep), p in zip(pinfo, pres):
-        a = ss[si]["impl"]
-        ch = any(p.get(k) != a.get(k) for k in ("status", "k", "u", "v", "jac"))
+        ch = observables(p) != observables(base_dbg[si])
         changed[(si, i)] = changed.get((si, i), False) or ch
     for (si, i), ch in changed.items():
         ctx.evaluations += 1
